@@ -156,6 +156,7 @@ var (
 	rAccType  = Rule{"TAB-ACCTYPE", rules.TabAccType}
 	rReslice0 = Rule{"OWN-RESLICE0", rules.OwnReslice0(rules.ScopeWriter)}
 	rEscRune  = Rule{"TAB-ESCRUNE", rules.TabEscRune}
+	rEncPure  = Rule{"OWN-ENCPURE", rules.OwnEncPure}
 	rFixedLST = Rule{"OWN-FIXEDLST", rules.OwnFixedLST}
 	rReflSet  = Rule{"TAB-REFLECTSET", rules.TabReflectSet}
 	rBounds   = Rule{"TAB-BOUNDS", rules.TabBounds}
@@ -332,12 +333,12 @@ var registry = map[string]*Property{
 		},
 	},
 	"C16": {
-		Decided:    "Only the determinism clause: MarshalText asks for sorted map keys and with that option encodeMap sorts the keys before emitting any field (ORD-SORTMAP); nothing reachable from Marshal*/Encoder/Writer methods consults a time-, random- or schedule-dependent source, and every map range has an order-insensitive body (OWN-NONDET); the one narrowing on the encode path, int64(v.Uint()), happens only under reflect kinds whose values fit (NUM-NARROW, marshal.go); every struct type without exported fields that the decoder recognises by identity (big.Int, Decimal, Timestamp, time.Time) is recognised by the encoder before the generic field walk (TAB-OPAQUE); every reflect.Kind the decoder accepts as a target is dispatched on by the encoder (TAB-KIND); a Go string marshalled as a symbol is written by its text, never through the '$n'-interpreting string API (OWN-TEXTAUTH, marshal obligations); no append in the field, marshal and unmarshal code keeps results of repeated appends to one fixed base slice, so field index paths of siblings never share a backing array (OWN-APPENDALIAS). A case-insensitive field match never ends the field search before every candidate was compared exactly (ORD-EXACTFIRST); the comparator of the key sort compares the keys themselves (ORD-SORTMAP); no exported function ignores a named parameter (OWN-PARAMUSED).",
+		Decided:    "Only the determinism clause: MarshalText asks for sorted map keys and with that option encodeMap sorts the keys before emitting any field (ORD-SORTMAP); nothing reachable from Marshal*/Encoder/Writer methods consults a time-, random- or schedule-dependent source, and every map range has an order-insensitive body (OWN-NONDET); the one narrowing on the encode path, int64(v.Uint()), happens only under reflect kinds whose values fit (NUM-NARROW, marshal.go); every struct type without exported fields that the decoder recognises by identity (big.Int, Decimal, Timestamp, time.Time) is recognised by the encoder before the generic field walk (TAB-OPAQUE); every reflect.Kind the decoder accepts as a target is dispatched on by the encoder (TAB-KIND); a Go string marshalled as a symbol is written by its text, never through the '$n'-interpreting string API (OWN-TEXTAUTH, marshal obligations); no append in the field, marshal and unmarshal code keeps results of repeated appends to one fixed base slice, so field index paths of siblings never share a backing array (OWN-APPENDALIAS). A case-insensitive field match never ends the field search before every candidate was compared exactly (ORD-EXACTFIRST); the comparator of the key sort compares the keys themselves (ORD-SORTMAP); no exported function ignores a named parameter (OWN-PARAMUSED). No function of marshal.go reaches a mutating reflect call: Marshal never writes through the value it is given (OWN-ENCPURE).",
 		Necessary:  "Go's map iteration order is random, so an unsorted map encode or any other nondeterminism source makes MarshalText output differ between runs for the same value.",
 		NotDecided: "value equality after the round trip: field paths through embedded structs, name matching, map keys, pointer/nil handling — behaviour of reflection over caller types",
-		Technique:  "SSA dominance + call-graph reachability from the output API; type-identity and reflect.Kind tables extracted from SSA comparisons; loop/base analysis of append calls; value flow for OWN-TEXTAUTH" + "; loop-structure check around EqualFold (no return reachable without a back edge); comparator purity check; SSA referrer check of parameters",
+		Technique:  "SSA dominance + call-graph reachability from the output API; type-identity and reflect.Kind tables extracted from SSA comparisons; loop/base analysis of append calls; value flow for OWN-TEXTAUTH" + "; loop-structure check around EqualFold (no return reachable without a back edge); comparator purity check; SSA referrer check of parameters" + "; call-graph reachability of mutating reflect methods from marshal.go",
 		DesignRef:  "DESIGN.md §3.5, §3.6, §4 C16",
-		Rules:      []Rule{rOrdSortMap, rOwnNondet, only(rNarrow, 1, posHas("ion/marshal.go")), rOpaque, rKind, only(rTextAuth, 1, posHas("ion/marshal.go", "ion/unmarshal.go")), only(rAppAlias, 2, posHas("ion/fields.go", "ion/marshal.go", "ion/unmarshal.go")), rExactFst, rParamUse},
+		Rules:      []Rule{rOrdSortMap, rOwnNondet, only(rNarrow, 1, posHas("ion/marshal.go")), rOpaque, rKind, only(rTextAuth, 1, posHas("ion/marshal.go", "ion/unmarshal.go")), only(rAppAlias, 2, posHas("ion/fields.go", "ion/marshal.go", "ion/unmarshal.go")), rExactFst, rParamUse, rEncPure},
 	},
 	"C17": {
 		Decided:    "In unmarshal.go: token text and the other nil-if-unknown pointer fields are tested before use (NIL-FIELD); accessor results are dereferenced only under the non-null precondition (NIL-ACC, NIL-ARG); Decoder.Decode/DecodeTo return the reader's error or ErrNoInput, never nil, when Next() reports no value (ORD-NOINPUT); every reflective numeric store is dominated by the matching Overflow test on the same value and operand, every signed-to-unsigned conversion by a sign test, every big.Int extraction by IsUint64 (NUM-REFLECT, NUM-NARROW, NUM-BIG in unmarshal.go); a reflective Set under a type-identity test stores a value of exactly that type (TAB-REFLECTSET); every index in unmarshal.go is in bounds (NUM-INDEX, unmarshal obligations). A case-insensitive field match never ends the field search before every candidate was compared exactly (ORD-EXACTFIRST); under each IntSize() case the accessor reached is wide enough (TAB-INTSIZE); no typed accessor answers successfully before the value's type was read (TAB-ACCTYPE).",
@@ -352,12 +353,12 @@ var registry = map[string]*Property{
 		},
 	},
 	"C18": {
-		Decided:    "There is no shared mutable state: shared tables, local tables and the catalog are written only while being constructed (OWN-IMMUT); package-level variables and everything reachable from them are written only during package initialisation (OWN-GLOBAL); no method of a shared type hands out an alias of its internal slice or map (OWN-ESCAPE); nothing on the output path consults a schedule- or time-dependent source (OWN-NONDET).",
+		Decided:    "There is no shared mutable state: shared tables, local tables and the catalog are written only while being constructed (OWN-IMMUT); package-level variables and everything reachable from them are written only during package initialisation (OWN-GLOBAL); no method of a shared type hands out an alias of its internal slice or map (OWN-ESCAPE); nothing on the output path consults a schedule- or time-dependent source (OWN-NONDET). No function of marshal.go reaches a mutating reflect call, so concurrent Marshal calls on one value only read it (OWN-ENCPURE).",
 		Necessary:  "With nothing written after construction every access to the shared objects is a read, and concurrent reads do not race (Go memory model); any write found by these rules is a write to an object two goroutines can hold.",
 		NotDecided: "thread-safety of reflect, math/big, fmt, strconv internals (assumed); user-supplied io.Reader/io.Writer/Marshaler implementations",
-		Technique:  "SSA store/alias roots + call-graph effect summaries; copy-source tracing for Build",
+		Technique:  "SSA store/alias roots + call-graph effect summaries; copy-source tracing for Build" + "; call-graph reachability of mutating reflect methods from marshal.go",
 		DesignRef:  "DESIGN.md §3.6, §4 C18",
-		Rules:      []Rule{rOwnImmut, rOwnGlobal, rOwnEscape, rOwnNondet, rBuild},
+		Rules:      []Rule{rOwnImmut, rOwnGlobal, rOwnEscape, rOwnNondet, rBuild, rEncPure},
 	},
 	"C19": {
 		Decided:    "In the reader and writer files of package ion no error of a module function, ion interface method or I/O primitive is discarded (ERR-DROP) and no path from a non-nil error test reaches an exit with the error neither consumed nor replaced by a definitely non-nil error (ERR-SWAP); a failed write is sticky in every Writer method (ERR-STICKY-W); a failed read is made sticky before a Reader method returns it (ERR-STICKY-R); the caller's io.Reader is only wrapped in a bufio.Reader and that is used only through complete-or-error primitives (ReadByte, Peek, Discard, io.ReadFull), so no result depends on how a Read was chunked (OWN-INPUT).",
@@ -381,6 +382,7 @@ var registry = map[string]*Property{
 
 // devRules: every rule by name, for `ionlint -dev RULE`.
 var devRules = map[string]Rule{
+	"TAB-KEYWORD":     rKeyword,
 	"ORD-SORTMAP":     rOrdSortMap,
 	"NUM-FLAGOR":      rFlagOr,
 	"NUM-ZEROSIGN":    rZeroSign,
@@ -400,6 +402,7 @@ var devRules = map[string]Rule{
 	"TAB-ACCTYPE":     rAccType,
 	"OWN-RESLICE0":    rReslice0,
 	"TAB-ESCRUNE":     rEscRune,
+	"OWN-ENCPURE":     rEncPure,
 	"NUM-NARROW":      {"NUM-NARROW", rules.NumNarrow(rules.ScopeNum, rules.NarrowResiduals, 0)},
 	"NUM-SHIFT":       {"NUM-SHIFT", rules.NumShift(rules.ScopeNum, rules.ShiftResiduals, 0)},
 	"NUM-EXP32":       {"NUM-EXP32", rules.NumArith32(rules.ScopeNum, nil, 0)},
